@@ -9,7 +9,11 @@ import (
 )
 
 // Interesting runes for JSON strings: every escape class.
-var strRunes = []rune{'a', 'b', 'z', 'A', '0', ' ', '"', '\\', '/', 0, 1, 8, 9, 10, 12, 13, 0x1f, 0x7f, 0xe9, 0x2028, 0xffff, 0x10000, 0x1f600, 'k', '_', '.', ':', '@', '$', '!'}
+var strRunes = []rune{'a', 'b', 'z', 'A', '0', ' ', '"', '\\', '/', 0, 1, 8, 9, 10, 12, 13, 0x1f, 0x7f, 0xe9, 0x2028, 0xffff, 0x10000, 0x1f600, 'k', '_', '.', ':', '@', '$', '!', '<', '>', '&'}
+
+// strFragments are texts that look like JSON escapes (a backslash and what follows it, as characters of the string itself):
+// whatever un-escapes or re-escapes serialised JSON by text replacement trips over them.
+var strFragments = []string{`\u0026`, `\u003c`, `\u003e`, `\u2028`, `\u0000`, `\n`, `\"`, `\\`, `\ud800`, `&amp;`}
 
 // NumberAtoms are number literals around every boundary of interest.
 var NumberAtoms = []string{"0", "-0", "1", "-1", "10", "42", "-17", "9007199254740991", "-9007199254740991", "9007199254740992", "-9007199254740992",
@@ -60,6 +64,10 @@ func RandString(r *Rand, maxLen int) string {
 	n := r.Intn(maxLen + 1)
 	var sb strings.Builder
 	for i := 0; i < n; i++ {
+		if r.Chance(0.04) {
+			sb.WriteString(Pick(r, strFragments))
+			continue
+		}
 		sb.WriteRune(Pick(r, strRunes))
 	}
 	return sb.String()
